@@ -467,23 +467,42 @@ class Folder:
                     raise Unfoldable("unhashable dictionary key")
                 out_d[kk] = self.fold(v_)
             return out_d
-        if isinstance(node, (ast.ListComp, ast.GeneratorExp)) and len(node.generators) == 1 and not node.generators[0].is_async:
-            g = node.generators[0]
-            seq = self.fold(g.iter)
-            if isinstance(seq, (set, frozenset)):
-                seq = list(seq)
-            if not isinstance(seq, (list, str)):
-                raise Unfoldable("comprehension over a non-sequence")
-            out = PySeq()
+        if isinstance(node, (ast.ListComp, ast.GeneratorExp, ast.SetComp, ast.DictComp)) and not any(g.is_async for g in node.generators):
+            items_: list = []
             saved = dict(self.names)
+
+            def _gen(k):
+                if k == len(node.generators):
+                    items_.append((self.fold(node.key), self.fold(node.value)) if isinstance(node, ast.DictComp) else self.fold(node.elt))
+                    return
+                g_ = node.generators[k]
+                seq_ = self.fold(g_.iter)
+                if isinstance(seq_, (set, frozenset)):
+                    seq_ = sorted(seq_) if all(isinstance(x_, (int, float, str)) for x_ in seq_) else list(seq_)
+                if isinstance(seq_, dict):
+                    seq_ = list(seq_)
+                if not isinstance(seq_, (list, str)):
+                    raise Unfoldable("comprehension over a non-sequence")
+                for item_ in seq_:
+                    self._bind_target(g_.target, item_)
+                    if all(truth(self.fold(c_)) for c_ in g_.ifs):
+                        _gen(k + 1)
+                        if len(items_) > 200000:
+                            raise Unfoldable("comprehension too long")
+
             try:
-                for item in seq:
-                    self._bind_target(g.target, item)
-                    if all(truth(self.fold(c)) for c in g.ifs):
-                        out.append(self.fold(node.elt))
+                _gen(0)
             finally:
                 self.names = saved
-            return out
+            if isinstance(node, ast.DictComp):
+                if any(isinstance(k_, list) for k_, _ in items_):
+                    raise Unfoldable("dictionary key")
+                return dict(items_)
+            if isinstance(node, ast.SetComp):
+                if any(isinstance(x_, list) for x_ in items_):
+                    raise Unfoldable("set element")
+                return set(items_)
+            return PySeq(items_)
         if isinstance(node, ast.JoinedStr):
             out = ""
             for part in node.values:
@@ -701,7 +720,7 @@ class Folder:
             raise Unfoldable("subscript")
         if isinstance(node, ast.Compare) and len(node.ops) == 1 and isinstance(node.ops[0], (ast.In, ast.NotIn)):
             a, b = self.fold(node.left), self.fold(node.comparators[0])
-            if not isinstance(b, (list, str, set, frozenset)) or isinstance(a, list):
+            if not isinstance(b, (list, str, set, frozenset, dict)) or isinstance(a, list):
                 raise Unfoldable("membership test")
             r = a in b
             return r if isinstance(node.ops[0], ast.In) else not r
@@ -798,6 +817,11 @@ class Folder:
                 if isinstance(v, list) and v and isinstance(v[0], list):
                     return [[row[j] for row in v] for j in range(len(v[0]))]
                 raise Unfoldable("transpose of a non-matrix")
+            if m in ("items", "keys", "values") and not node.args and not node.keywords:
+                d_ = self.fold(node.func.value)
+                if isinstance(d_, dict):
+                    return PySeq([PySeq([k_, v_]) for k_, v_ in d_.items()] if m == "items" else (list(d_) if m == "keys" else list(d_.values())))
+                raise Unfoldable(f"{m} of a non-dictionary")
             if m == "get" and 1 <= len(node.args) <= 2 and not node.keywords:
                 d_ = self.fold(node.func.value)
                 if isinstance(d_, dict):
@@ -1024,6 +1048,14 @@ class Folder:
                 return self.ctors[node.func.id](*[self.fold(a) for a in node.args], **{k.arg: self.fold(k.value) for k in node.keywords})
             except (TypeError, ValueError) as exc:
                 raise Unfoldable(str(exc))
+        if isinstance(node, ast.Call) and isinstance(node.func, ast.Name) and node.func.id == "hasattr" and len(node.args) == 2 and not node.keywords and isinstance(node.args[1], ast.Constant) and isinstance(node.args[1].value, str):
+            ch_ = attr_chain(node.args[0]) if isinstance(node.args[0], (ast.Name, ast.Attribute)) else None
+            if ch_ is not None and f"{ch_}.{node.args[1].value}" in self.attrs:
+                return True
+            obj_ = self.fold(node.args[0])
+            if getattr(type(obj_), "_kv_eval_obj", False):
+                return hasattr(obj_, node.args[1].value)
+            raise Unfoldable("hasattr of a value outside the model objects")
         if isinstance(node, ast.Call) and isinstance(node.func, ast.Name) and node.func.id == "isinstance" and len(node.args) == 2 and isinstance(node.args[1], ast.Name) and node.args[1].id in self.ctors:
             return isinstance(self.fold(node.args[0]), self.ctors[node.args[1].id])
         if isinstance(node, ast.Call) and isinstance(node.func, ast.Name) and node.func.id in self.funcs:
